@@ -9,6 +9,9 @@ object size requested by the harness covers header + fields + payload, is a mult
 (`sizeFor_ge`, `sizeFor_aligned`, `sizeFor_min`) — so "granted size = `sizeFor`" is "size ≥ requested".
 Termination is observed (watchdog `timeout`), not proved: it depends on the scheduler (C14).
 Level: proof of the verdict function; partial w.r.t. the code.
+The allocators' own arithmetic (aligned, inside the granted buffer / block / page run / cell, for every
+legal input; the `gc:bump-align-leak` condition and witness; the LOS page-cover lemma) is proved over the
+transcribed allocators in `Props/C03Algo.lean`.
 -/
 namespace Mmtk.Heap
 
